@@ -17,7 +17,7 @@ type nOpts struct {
 	Focus     string
 	Kinds     []string // candidate kinds
 	MaxCands  int
-	Scenarios bool // also generate the scripted multi-step scenarios (early message for an upcoming view, then that view is entered, prepared and left)
+	Scenarios bool     // also generate the scripted multi-step scenarios (early message for an upcoming view, then that view is entered, prepared and left)
 	Mutations []string // restrict the mutation catalogue (nil = all)
 }
 
